@@ -40,7 +40,11 @@ HAppendBad ==    \* encoding failures: one bad timestamp position or an oversize
 HNext == HAppend \/ HAppendBad
 
 ----------------------------------------------------------------------------
-Pick(seq) == seq[RandomElement(1..Len(seq))]
+\* TLC evaluates a constant-level expression such as RandomElement(1..6) once and reuses the
+\* value; the draw is therefore made to depend (vacuously) on the state
+Rnd(S) == RandomElement({x \in S : ntx >= 0})
+Pick(seq) == seq[Rnd(1..Len(seq))]
+Hot == CHOOSE s \in Streams : TRUE
 \* expectations likely to be right, wrong by one, or generic
 XFor(cv) ==
     IF cv.k = "empty"
@@ -49,23 +53,34 @@ XFor(cv) ==
            V!Empty, IF cv.v > 0 THEN V!Exact(cv.v - 1) ELSE V!Exact(1)>>
 
 SimAppend ==
-    \E p \in {RandomElement(Parts)}, n \in {Pick(<<1, 1, 1, 2, 2, 3>>)} :
-    \E ss \in {[i \in 1..n |-> RandomElement(Streams)]} :
-    \E k \in {LET bk == BoundKey(log, Bucket(p), ss[1]) IN
-              IF bk # "none" /\ RandomElement(1..10) > 1 THEN bk ELSE RandomElement(Keys)} :
+    \E p \in {Rnd(Parts)}, n \in {Pick(<<1, 1, 1, 2, 2, 3>>)} :
+    \* the key first, then streams that key may touch (unbound, or bound to it), so that
+    \* multi-stream transactions are usually acceptable; one hot stream, so that stream
+    \* versions differ widely between the streams of one transaction (position hand-over
+    \* between segments must cope with that)
+    \E k \in {Rnd(Keys)} :
+    \E pool \in {LET ok == {s \in Streams : BoundKey(log, Bucket(p), s) \in {"none", k}} IN
+                 IF ok = {} \/ Rnd(1..10) = 1 THEN Streams ELSE ok} :
+    \E ss \in {[i \in 1..n |-> IF Hot \in pool /\ Rnd(1..10) <= 4 THEN Hot
+                               ELSE Rnd(pool)]} :
     \E evs \in {[i \in 1..n |->
+                   LET cv == CurVer(log, Bucket(p), ss[i])
+                       cnt == Cardinality({j \in 1..(i - 1) : ss[j] = ss[i]})   \* earlier events of the stream
+                       ant == (IF cv.k = "empty" THEN 0 - 1 ELSE cv.v) + cnt      \* version they leave behind
+                       right == IF ant < 0 THEN V!Empty ELSE V!Exact(ant)
+                   IN
                    [s |-> ss[i],
-                    \* in-transaction bumps are not anticipated here: later events of a repeated
-                    \* stream therefore often carry a stale exact expectation, which is the point
-                    x |-> IF RandomElement(1..3) = 1 /\ i > 1 /\ \E j \in 1..(i - 1) : ss[j] = ss[i]
-                          THEN Pick(<<V!Any, V!Exists, V!Empty,
-                                      V!Exact(V!NextOf(CurVer(log, Bucket(p), ss[i]))),
-                                      V!Exact(V!NextOf(CurVer(log, Bucket(p), ss[i])) + 1)>>)
-                          ELSE Pick(XFor(CurVer(log, Bucket(p), ss[i]))),
-                    badts |-> RandomElement(1..25) = 1]]} :
+                    \* mostly the right expectation (in-transaction bumps anticipated); otherwise a
+                    \* generic one, one that is off by one, or the stale pre-transaction version
+                    x |-> IF Rnd(1..10) <= 7 THEN Pick(<<right, right, right, V!Any>>)
+                          ELSE Pick(<<V!Exists, V!Empty, V!Exact(ant + 1),
+                                      V!Exact(IF ant > 0 THEN ant - 1 ELSE 1)>> \o XFor(cv)),
+                    \* a later event that cannot be encoded makes the write fail half way (after
+                    \* earlier events were written), which is the interesting failure
+                    badts |-> (i > 1 /\ Rnd(1..8) = 1) \/ Rnd(1..40) = 1]]} :
     \E xs \in {Pick(<<V!Any, V!Any, V!Any>> \o XFor(CurSeq(log, p)))} :
        Do([id |-> ntx + 1, key |-> k, p |-> p, xs |-> xs, evs |-> evs,
-           oversize |-> RandomElement(1..40) = 1])
+           oversize |-> Rnd(1..40) = 1])
 
 SimNext == SimAppend
 
